@@ -94,8 +94,19 @@ func restoreFieldConds(p *Program, dt, at *types.Named, in, out, prefix string, 
 			}
 		case fcObject:
 			conds = append(conds, [2]string{label + ".extras_off", fmt.Sprintf("!r.Extras ==> %s == nil", outF)})
+			// C18: with extras on, the counterpart through the object / scope map
+			m := "r.Ast.Objects"
+			if strings.HasSuffix(f.Type().String(), "Scope") {
+				m = "r.Ast.Scopes"
+			}
+			conds = append(conds, [2]string{"graph!" + label, fmt.Sprintf("r.Extras ==> (%s == nil ? %s == nil : has(%s, %s) && %s[%s] == %s)", inF, outF, m, inF, m, inF, outF)})
 		case fcMap:
-			// Package.Files / Imports: handled by the Package case invariants
+			// Package.Files: handled by the Package case invariants
+			if f.Name() == "Imports" {
+				conds = append(conds, [2]string{"graph!" + label + ".names", fmt.Sprintf("r.Extras ==> (forall k string :: has(%s, k) == has(%s, k))", outF, inF)})
+				conds = append(conds, [2]string{"graph!" + label + ".members", fmt.Sprintf("r.Extras ==> (forall k string :: has(%s, k) && %s[k] != nil ==> has(r.Ast.Objects, %s[k]) && %s[k] == r.Ast.Objects[%s[k]])", inF, inF, inF, outF, inF)})
+				conds = append(conds, [2]string{"graph!" + label + ".extras_off", fmt.Sprintf("!r.Extras ==> (forall k string :: has(%s, k) ==> %s[k] == nil)", outF, outF)})
+			}
 		}
 	}
 	return conds
@@ -136,6 +147,10 @@ func restoreNodeOpts(p *Program, nt nodeType) *UnitOpts {
 		var unmatched []string
 		for _, c := range restoreFieldConds(p, nt.Named, at, "$in", "$out", "", consulted, &unmatched) {
 			if nt.Name == "FuncDecl" && notMirrored[c[0]] {
+				continue
+			}
+			if strings.HasPrefix(c[0], "graph!") {
+				ex.obligeSpec(exitEnv, name+"#graph:"+c[0][6:], "schema", g, normal+" ==> ("+c[1]+")", nil)
 				continue
 			}
 			ex.obligeSpec(exitEnv, name+"#fields:"+c[0], "schema", g, normal+" ==> ("+c[1]+")", nil)
